@@ -809,6 +809,19 @@ class Inliner(object):
                 isinstance(stmt.value, ast.Call):
             call = stmt.value
             result = stmt.targets[0].id
+        elif isinstance(stmt, ast.Assign) and len(stmt.targets) == 1 and \
+                isinstance(stmt.targets[0], (ast.Subscript,
+                                             ast.Attribute)) and \
+                isinstance(stmt.value, ast.Call):
+            # obj[k] = helper(...)  ->  _r = helper(...) ; obj[k] = _r
+            call = stmt.value
+            callee = self.inlinable(caller, call, stack)
+            if callee is not None:
+                result = self._fresh(callee.name)
+                tail = [ast.copy_location(ast.Assign(
+                    targets=stmt.targets,
+                    value=ast.Name(id=result, ctx=ast.Load()),
+                    lineno=stmt.lineno), stmt)]
         elif isinstance(stmt, ast.Return) and isinstance(stmt.value,
                                                          ast.Call):
             call = stmt.value
